@@ -160,6 +160,9 @@ def execute(zy: ZygoteSet, seed_: int, run: int, workload: dict, traces=None, ta
                 if r["status"] in ("ok", "injected-oserror"):
                     continue
                 kind = "wrong-result" if r["status"] == "wrong" else r["status"]
+                if kind == "descriptor-leak":
+                    violations.append({"sig": kind, "detail": f"phase {i} cfg={phase['cfg']} actor {r['actor']} call {r['call']}: {r['detail']}"})
+                    continue
                 if r["verify"]:
                     kind = "recovery:" + kind
                 violations.append({
